@@ -6,6 +6,7 @@ import (
 	"os"
 	"os/exec"
 	"path/filepath"
+	"regexp"
 	"sort"
 	"strings"
 	"time"
@@ -102,6 +103,16 @@ func (cs c08Case) tla(k int) string {
 	return fmt.Sprintf("[pkgs |-> [%s], top |-> %s]", strings.Join(fields, ",\n      "), tlaStrSeq(top))
 }
 
+// c08PkgName: the Go package name of the package in dir: its last element, or for a major-version directory (v2, v3,
+// ...) the element before it, as Go modules do (import ".../kv/v2" declares package kv).
+func c08PkgName(dir string) string {
+	base := filepath.Base(dir)
+	if regexp.MustCompile(`^v[0-9]+$`).MatchString(base) && filepath.Dir(dir) != "." {
+		base = filepath.Base(filepath.Dir(dir))
+	}
+	return strings.NewReplacer(".", "_", "-", "_").Replace(base)
+}
+
 func leafByName(n string) (ffiLeaf, bool) {
 	for _, l := range append(append([]ffiLeaf{}, ffiLeaves...), plainBuiltins...) {
 		if l.name == n {
@@ -118,7 +129,7 @@ func (cs c08Case) materialize(root string, k int) error {
 		if err := os.MkdirAll(d, 0755); err != nil {
 			return err
 		}
-		pkgName := strings.NewReplacer(".", "_", "-", "_").Replace(filepath.Base(u.dir))
+		pkgName := c08PkgName(u.dir)
 		write := func(file string, imps []string, tag string) error {
 			var sb strings.Builder
 			fmt.Fprintf(&sb, "package %s\n\n", pkgName)
@@ -151,7 +162,7 @@ func (cs c08Case) materialize(root string, k int) error {
 				} else {
 					for _, v := range cs.users {
 						if v.name == im {
-							vp := strings.NewReplacer(".", "_", "-", "_").Replace(filepath.Base(v.dir))
+							vp := c08PkgName(v.dir)
 							fmt.Fprintf(&sb, "func %s() uint64 {\n\treturn %s.Val()\n}\n\n", fn, vp)
 						}
 					}
@@ -199,7 +210,9 @@ func C08(c *ev.Ctx) {
 		// sibling paths whose order as Go paths differs from the order of their mapped Coq names ('-' < '/' but '.' < '_')
 		{"a-b/u1", "a/u2", "a.b/u3"},
 		// a directory (not the package) named trusted_*: only the LAST element decides the trusted namespace
-		{"u1", "trusted_x/u2", "trusted_y/trusted_u3"}, {"trusted_x/u1", "trusted_x/sub/u2", "u3"}}
+		{"u1", "trusted_x/u2", "trusted_y/trusted_u3"}, {"trusted_x/u1", "trusted_x/sub/u2", "u3"},
+		// major-version directories: the import path ends in vN, the package is named after the element before it
+		{"u1/v2", "lib-x/v3", "u3"}, {"u1", "u2/v2", "deep/er/u3/v10"}}
 	mk := func(n int, pick func(opts int) int) c08Case {
 		cs := c08Case{groveDep: pick(2) == 1}
 		dset := dirs[pick(len(dirs))]
